@@ -133,6 +133,14 @@ theorem step_link (s : Sys F) (ev : Ev) (hnd : (ids s.links).Nodup) :
     · unfold ProbeFx; rw [if_neg (by simp [consulted])]
       split <;> exact Or.inl rfl
     · split <;> rfl
+  | syncTimeout =>
+    -- `sync_conn_timeout` rewrites the timeout copy of every link, outside the data path
+    refine ⟨by show (s.links.map _).length = _; exact List.length_map _, fun i l hl => ?_⟩
+    refine ⟨{ l with connTimeoutMs := s.cfg.connTimeoutMs }, ?_, ?_, ?_, fun _ => Or.inl rfl⟩
+    · show (s.links.map fun l => ({ l with connTimeoutMs := s.cfg.connTimeoutMs } : FLink F))[i]? = _
+      rw [List.getElem?_map, hl]; rfl
+    · exact ⟨rfl, Or.inl ⟨by simp [appended], rfl, Or.inl rfl⟩⟩
+    · unfold ProbeFx; rw [if_neg (by simp [consulted])]; exact Or.inl rfl
 
 /-! ## The invariant -/
 
